@@ -909,6 +909,51 @@ def dispatch_rows(C: Classes, F: dict[str, Any]) -> list[dict]:
     return rows
 
 
+OPERATOR_METHODS = ('__matmul__', '__rmatmul__', '__imatmul__')
+OPERAND_CLASSES = ('VecBase', 'Vec', 'FrozenVec', 'MatrixBase', 'Matrix', 'FrozenMatrix', 'AngleBase', 'Angle', 'FrozenAngle')
+
+
+def operator_census(tree: ast.Module, C: Classes, rows: list[dict]) -> dict:
+    """Every definition of an @ operator method in math.py must (1) sit directly in the body of one of the nine
+    operand classes (so that the class table sees it), (2) not be installed or replaced by an assignment / setattr /
+    del anywhere in the module, and (3) be executed by at least one row of the table.  Fail closed otherwise."""
+    defs: dict[str, ast.FunctionDef] = {}
+    for c in OPERAND_CLASSES:
+        for f in C.cls[c].body:
+            if isinstance(f, ast.FunctionDef) and f.name in OPERATOR_METHODS \
+                    and not any(isinstance(d, ast.Name) and d.id == 'overload' for d in f.decorator_list):
+                if f'{c}.{f.name}' in defs:
+                    raise TranslateError(f'{c}.{f.name} is defined twice')
+                if [d for d in f.decorator_list]:
+                    raise TranslateError(f'{c}.{f.name} is decorated')
+                defs[f'{c}.{f.name}'] = f
+    known = {id(f) for f in defs.values()}
+    for n in ast.walk(tree):
+        if isinstance(n, (ast.FunctionDef, ast.AsyncFunctionDef)) and n.name in OPERATOR_METHODS and id(n) not in known \
+                and not any(isinstance(d, ast.Name) and d.id == 'overload' for d in n.decorator_list):
+            raise TranslateError(f'line {n.lineno}: {n.name} is defined outside the bodies of the nine operand classes')
+        if isinstance(n, (ast.Assign, ast.AugAssign, ast.AnnAssign, ast.Delete)):
+            tgts = n.targets if isinstance(n, (ast.Assign, ast.Delete)) else [n.target]
+            for t in tgts:
+                for sub in ast.walk(t):
+                    if (isinstance(sub, ast.Attribute) and sub.attr in OPERATOR_METHODS) or \
+                            (isinstance(sub, ast.Name) and sub.id in OPERATOR_METHODS):
+                        raise TranslateError(f'line {n.lineno}: an @ operator method is assigned or deleted')
+        if isinstance(n, ast.Call) and isinstance(n.func, ast.Name) and n.func.id in ('setattr', 'delattr') and len(n.args) >= 2 \
+                and isinstance(n.args[1], ast.Constant) and n.args[1].value in OPERATOR_METHODS:
+            raise TranslateError(f'line {n.lineno}: an @ operator method is installed with {n.func.id}')
+        if isinstance(n, ast.Constant) and isinstance(n.value, str) and n.value in ('@', '@=', 'matmul', 'rmatmul', 'imatmul'):
+            raise TranslateError(f'line {n.lineno}: the string {n.value!r} may feed a method template (exec)')
+        if isinstance(n, ast.Constant) and isinstance(n.value, str) and len(n.value) > 40 \
+                and any(f'def {m}' in n.value for m in OPERATOR_METHODS):
+            raise TranslateError(f'line {n.lineno}: an @ operator method is defined in a code template string')
+    reached = {t for r in rows for t in r['trace']}
+    missing = sorted(k for k in defs if k not in reached)
+    if missing:
+        raise TranslateError(f'@ operator definitions never executed by any table row: {missing}')
+    return {'definitions': sorted(defs), 'rows_per_definition': {k: sum(1 for r in rows if k in r['trace']) for k in sorted(defs)}}
+
+
 def dispatch_coq(rows: list[dict]) -> str:
     out = ['(* GENERATED by translate/c04_formulas.py from src/srctools/math.py (@ dispatch). Do not edit. *)',
            'From Coq Require Import List.', 'From SV Require Import Rot.RotDispatch.', 'Import ListNotations.', '',
@@ -942,6 +987,7 @@ def analyse() -> dict[str, Any]:
                 raise TranslateError(f'class {c} not found in math.py')
         F = extract_formulas(C)
         rows = dispatch_rows(C, F)
+        census = operator_census(tree, C, rows)
         dig = {}
         for c in ('VecBase', 'Vec', 'MatrixBase', 'Matrix', 'AngleBase', 'Angle'):
             for m in ('__matmul__', '__rmatmul__', '__imatmul__', '_rotate_angle', 'inverse'):
@@ -949,7 +995,7 @@ def analyse() -> dict[str, Any]:
                        and not any(isinstance(d, ast.Name) and d.id == 'overload' for d in f.decorator_list)]
                 if got:
                     dig[f'{c}.{m}'] = ast_digest(got[-1])
-        _CACHE.update(text=text, F=F, rows=rows, digests=dig)
+        _CACHE.update(text=text, F=F, rows=rows, digests=dig, census=census)
     return _CACHE
 
 
@@ -966,7 +1012,8 @@ def translate_formulas() -> tuple[str, dict]:
 
 def translate_dispatch() -> tuple[str, dict]:
     A = analyse()
-    side = {'rows': [{k: (v if k not in ('val', 'finalL', 'finalR') else term_coq(v)) for k, v in r.items()} for r in A['rows']]}
+    side = {'rows': [{k: (v if k not in ('val', 'finalL', 'finalR') else term_coq(v)) for k, v in r.items()} for r in A['rows']],
+            'operator_census': A['census']}
     return dispatch_coq(A['rows']), side
 
 
